@@ -48,6 +48,10 @@ def run(ctx, chk):
         from .c05 import compare
         fsm = compare(ctx, chk, "C07", cfg, ctx.tier)
         m = fsm.m
+        # "arbitrary non-comma payload bytes are reported unmodified": no accepted path may have
+        # assumed that a field of the line is valid UTF-8
+        dep = sorted(set(repr(k)[:120] for c in fsm.cells for k, v in c.path.st.pc.opq.items() if isinstance(k, tuple) and k and k[0] == "utf8ok" and "'L'" in repr(k) and v is True))
+        chk.ob(not dep, "C07/utf8-dependent/%d" % len(dep), "sentences are accepted [%s] only if a field of the line is valid UTF-8 (%s); field bytes are to be passed along as they are" % (cfg, dep[:1]))
         talker_leaves, report_leaves = set(), set()
         n = 0
         for c in fsm.cells:
